@@ -167,6 +167,9 @@ var funcSpecs = []funcSpec{
 	{rel: "plugin", name: "(*Identity).Recipient", opaque: map[string]string{"plugin.ClientUI": "υ"}},
 	{rel: "internal/format", name: "DecodeString", opaque: map[string]string{"base64.Encoding": "ε"}},
 	{rel: "agessh", name: "sshFingerprint", abstract: []string{"format.EncodeToString"}, opaque: map[string]string{"ssh.PublicKey": "π"}},
+	{rel: "", name: "wrapWithLabels", opaque: map[string]string{"age.Recipient": "ρ", "age.RecipientWithLabels": "ρ"}},
+	{rel: "internal/stream", name: "NewReader", abstract: []string{"chacha20poly1305.New"}, opaque: streamOpaque},
+	{rel: "internal/stream", name: "NewWriter", abstract: []string{"chacha20poly1305.New"}, opaque: streamOpaque},
 	{rel: "", name: "ParseRecipients", abstract: []string{"age.ParseX25519Recipient"}, opaque: map[string]string{"Recipient": "κ", "X25519Recipient": "κ"}, errInts: true},
 }
 
@@ -453,6 +456,9 @@ func (c *fctx) zero(n ast.Node, t types.Type) string {
 	if nt, ok := t.(*types.Named); ok && nt.Obj().Pkg() == nil && nt.Obj().Name() == "error" {
 		return "none"
 	}
+	if lt, ok := leanTypeOf(t); ok && lt == "Go.Src" {
+		return "(⟨[], false⟩ : Go.Src)" // (a nil reader: never read in translated code)
+	}
 	// the nil of a type that is opaque here: an abstract constant
 	if lt, ok := leanTypeOf(t); ok && len([]rune(lt)) == 1 {
 		c.useAbstractName("nil_"+lt, "(nil_"+lt+" : "+lt+")")
@@ -468,6 +474,10 @@ func (c *fctx) zero(n ast.Node, t types.Type) string {
 				if name, ok := c.t.structType(nt); ok {
 					var fs []string
 					for i := 0; i < st.NumFields(); i++ {
+						if _, isView := viewFields[fieldKey(nt, st.Field(i).Name())]; isView {
+							fs = append(fs, st.Field(i).Name()+"_lo := (0 : Int), "+st.Field(i).Name()+"_hi := (0 : Int)")
+							continue
+						}
 						fs = append(fs, fieldName(st.Field(i).Name())+" := "+c.zero(n, st.Field(i).Type()))
 					}
 					return "({ " + strings.Join(fs, ", ") + " } : " + name + ")"
@@ -902,6 +912,14 @@ func (c *fctx) structLit(cl *ast.CompositeLit) string {
 	for i := 0; i < st.NumFields(); i++ {
 		f := st.Field(i)
 		v, ok := given[f.Name()]
+		if _, isView := viewFields[fieldKey(nt, f.Name())]; isView {
+			// a window into an array field: the empty window unless given (giving one in a literal is not supported)
+			if ok {
+				c.fail(cl, "a view field is set in a struct literal")
+			}
+			fs = append(fs, f.Name()+"_lo := (0 : Int), "+f.Name()+"_hi := (0 : Int)")
+			continue
+		}
 		if !ok {
 			v = c.zero(cl, f.Type())
 		}
@@ -2823,6 +2841,23 @@ func (c *fctx) assign(e *emitter, ind int, st *ast.AssignStmt) {
 	}
 	if len(st.Rhs) != 1 {
 		c.fail(st, "assignment shape")
+	}
+	// v, ok := x.(T) with x and T opaque and translated to the same type variable: whether the value also implements T
+	// is an abstract predicate on it; v is the value itself
+	if ta, isTA := ast.Unparen(st.Rhs[0]).(*ast.TypeAssertExpr); isTA && len(st.Lhs) == 2 && len(st.Rhs) == 1 && ta.Type != nil {
+		lx, ok1 := leanTypeOf(c.typeOf(ta.X))
+		lt, ok2 := leanTypeOf(c.typeOf(ta.Type))
+		nt := namedOf(c.typeOf(ta.Type))
+		if !ok1 || !ok2 || lx != lt || len([]rune(lx)) != 1 || nt == nil {
+			c.fail(st, "type assertion other than between two interfaces that are the same opaque type here")
+		}
+		an := "implements_" + nt.Obj().Name()
+		c.useAbstractName(an, "("+an+" : "+lx+" → Bool)")
+		t := c.tmp()
+		e.add(ind, "let "+t+" := "+c.expr(ta.X))
+		c.assignTo(e, ind, st.Lhs[0], t, define)
+		c.assignTo(e, ind, st.Lhs[1], "("+an+" "+t+")", define)
+		return
 	}
 	// io.ReadAll(io.LimitReader(rd, n)) on a *bufio.Reader: the bytes, nil, and the reader's new state
 	if call, ok := ast.Unparen(st.Rhs[0]).(*ast.CallExpr); ok && len(st.Lhs) == 2 && len(call.Args) == 1 {
